@@ -475,7 +475,7 @@ def gen_malformed(tier, rng, cases):
             nd = rng.randrange(0, 6)
             d = rb(rng, nd * k - (rng.random() < 0.2 and nd > 0))
             dc = rng.choice([nd, nd, nd, nd + 1, 0, -1, nd - 1 if nd else 0])
-            bw = rng.choice([0, 1, 2, 3, 8, 31, 32, 32])
+            bw = rng.choice([0, 1, 2, 3, 8, 31, 32, 32, 33, 64, 255])
             oc = rng.randrange(0, 12)
             # hand-made hybrid stream: RLE runs and bit-packed groups of in-range and out-of-range indices
             s = bytearray([bw])
@@ -483,11 +483,11 @@ def gen_malformed(tier, rng, cases):
                 if rng.random() < 0.6:
                     cnt = rng.randrange(0, 12)
                     v = rng.choice([0, 1, nd - 1 if nd else 0, nd, nd + 1, (1 << bw) - 1 if bw else 0, 1 << 31 if bw == 32 else 0])
-                    s += R.uleb_enc(cnt << 1) + (v & ((1 << bw) - 1 if bw else 0)).to_bytes((bw + 7) // 8, "little")
+                    s += R.uleb_enc(cnt << 1) + (v & ((1 << min(bw, 32)) - 1 if bw else 0)).to_bytes((min(bw, 32) + 7) // 8, "little")
                 else:
                     g = rng.randrange(1, 3)
                     vals = [rng.randrange(0, max(1, min(nd + 2, 1 << bw if bw else 1))) for _ in range(8 * g)]
-                    s += R.uleb_enc((g << 1) | 1) + (R.bitpack(vals, bw) if bw else b"")
+                    s += R.uleb_enc((g << 1) | 1) + (R.bitpack(vals, min(bw, 32)) if bw else b"")
             if rng.random() < 0.2 and s:
                 s = s[:rng.randrange(0, len(s))]
             lines.append("dict_dec %s %d %d %s %s" % (ty, dc, oc, hx(d), hx(s)))
